@@ -156,6 +156,13 @@ impl<A: Float> CostFunction for TweedieProblem<'_, A> {
 
         let obj = A::from(0.5).unwrap() * (dev + p.slice(s![offset..]).dot(&pscaled));
 
+        // The line search cannot recover from a non-finite objective (it would never terminate)
+        if !obj.is_finite() {
+            return Err(argmin::core::Error::msg(
+                "objective function is not finite (overflow or mean outside the distribution's range)",
+            ));
+        }
+
         Ok(obj)
     }
 }
